@@ -14,6 +14,12 @@ theorem storedHashIndex_lt_S (l q : Nat) : Tlog.storedHashIndex l q < Tlog.S ((q
   rw [Tlog.storedHashIndex_eq]
   omega
 
+/-- simple sufficient range: a complete subtree inside a log of at most `2^62` records -/
+theorem storedHashIndex_lt_of_le (l q : Nat) (h : (q + 1) * 2 ^ l ≤ 2 ^ 62) : Tlog.storedHashIndex l q < 2 ^ 63 := by
+  have h1 := storedHashIndex_lt_S l q
+  have h2 := Tlog.S_le_two_mul ((q + 1) * 2 ^ l)
+  omega
+
 /-- the result of the model (`List Nat`, model errors) in the result type of the generated loop -/
 def stiOut (need : List Int) (final : Int) : Except Tlog.Err (List Nat) → M (List Int × Int)
   | .ok l => .ok (need ++ l.map Int.ofNat, final)
